@@ -30,9 +30,15 @@ func VerifC10_V1Lookup() {
 	pubkey := phase0.BLSPubKey{7}
 	cfg := &ExecutionConfig{ProposerConfigs: map[phase0.BLSPubKey]*ProposerConfig{}}
 	var specific, def *ProposerConfig
-	if vnd.Bool("specific.present") {
+	nullEntry := false
+	switch vnd.Choose("specific", 3) {
+	case 1:
 		specific = ndV1Config("specific")
 		cfg.ProposerConfigs[pubkey] = specific
+	case 2:
+		// "proposer_config":{"0x07..":null} is a document the parser accepts: the entry is there, without values
+		cfg.ProposerConfigs[pubkey] = nil
+		nullEntry = true
 	}
 	if vnd.Bool("other.present") {
 		cfg.ProposerConfigs[phase0.BLSPubKey{8}] = ndV1Config("other")
@@ -66,6 +72,12 @@ func VerifC10_V1Lookup() {
 	}
 	got, err := cfg.ProposerConfig(context.Background(), nil, pubkey, fallbackFee, fallbackGas)
 	vnd.Assert(err == nil && got != nil, "C10.v1.no-error")
+	if nullEntry {
+		// an entry without values: the lookup answers (no crash) with the values of the default entry or the fallback ones
+		vnd.Cover("C10.v1.null-entry")
+		vnd.Assert(got.FeeRecipient == fallbackFee || (def != nil && got.FeeRecipient == def.FeeRecipient), "C10.v1.null-entry-answers-with-default-or-fallback-values")
+		return
+	}
 	vnd.Assert(got.FeeRecipient == wantFee, "C10.v1.fee-recipient-specific-then-default-then-fallback")
 	vnd.Assert(len(got.Relays) == len(wantRelays), "C10.v1.relays-only-when-builder-enabled")
 	for i, r := range got.Relays {
